@@ -1674,6 +1674,12 @@ ssize_t __wrap_send(int fd, const void *buf, size_t len, int flags)
                 e->stalled = 1;
                 regs_reapply_fd(fd);
                 mc_trace("env: write stall begins on fd %d", fd);
+                if (cfg.stall_until_read && len > 1) {
+                    /* flow control: the window closes BEHIND a part of this write; it opens again when the
+                       peer has read that part (stall_may_end) */
+                    want = len / 2;
+                    break;
+                }
                 errno = EAGAIN;
                 return -1;
             case 4:
